@@ -6,7 +6,15 @@ ROOT = os.path.dirname(os.path.dirname(os.path.abspath(__file__)))
 sys.path.insert(0, ROOT)
 from bacverif import alpha
 from bacverif.model import _StripDebug
-src = sys.argv[1] if len(sys.argv) > 1 else "/repo/py34/bacpypes"
+if len(sys.argv) > 1:
+    src = sys.argv[1]
+else:
+    # the committed (reviewed) tree, not the working tree: a seeded patch may be applied there while checks are tried
+    import subprocess, tempfile, atexit, shutil
+    _tmp = tempfile.mkdtemp(prefix="bacverif-ref-")
+    atexit.register(shutil.rmtree, _tmp, True)
+    subprocess.run("git -C /repo archive HEAD py34 | tar -x -C %s" % _tmp, shell=True, check=True)
+    src = os.path.join(_tmp, "py34", "bacpypes")
 out = {}
 n = 0
 for root, _, files in os.walk(src):
